@@ -11,13 +11,28 @@ abstract syntax with a denotation — the independent spec of property C02.
   `ends`        the partial ends: for each span / base in the order written, its (5′, 3′) markers
   `print`       the canonical INSDC text (`<a..b`, `a..>b`)
   `insdcParse`  a STRICT recogniser of that grammar (recursive descent, nothing else accepted:
-                `a..b>` is rejected, a join needs at least two operands, positions are ≥ 1 and
-                a ≤ b); used only to judge the text poly writes
-  `embed`       the location assembled as a `poly.Location` structure (property clause
-                "assembled as a structure"); the structure has no constructor for "complement",
-                only a flag, so the complement of a complement is a wrapper node
-                `{Complement, SubLocations:[operand]}` (what parseLocation builds since ec3cbb7)
+                `a..b>` is rejected, a join needs at least two operands, positions are ≥ 1
+                without leading zeros and a ≤ b); used only to judge the text poly writes
+  `insdcLenient` the same recogniser, except that it also reads the non-INSDC `a..b>` as
+                `a..>b` — used to judge everything ELSE about a written text whose only defect is
+                the recorded placement of the 3′ marker (known finding C02-writer-3prime)
+  `Rep p l`     "the structure `p` is the location `l` assembled as a poly.Location": the family
+                of structures the library's users build — a join node may or may not carry the
+                `Join` flag when it has ≥ 2 sublocations (poly_test.go builds its two-part feature
+                with `Join == false`), a complement is either the `Complement` flag merged into
+                the operand's node or a wrapper node `{Complement, SubLocations:[operand]}` (what
+                parseLocation builds for a complement of a complement since ec3cbb7), and a node
+                that only wraps one sublocation stands for that sublocation
+  `embed`, `embedV`   concrete members of that family (the canonical one; and the variants with
+                `Join == false` on joins / wrapper nodes for every complement), sent to AddFeature
   `InRange`, `Arity`   well-formedness: positions within the parent; joins have ≥ 2 operands
+
+Partial markers: INSDC introduces `<` and `>` as qualifiers of the end points of a span (§3.4.3:
+`<345..500`, `<1..888`, `1..>888`: "the exact lower boundary point of a feature is unknown");
+the location descriptors of §3.4.2.1 list "a single base number" without them.  So `Loc.base`
+carries no markers, `<5` / `>5` are outside this grammar and outside property C02 as read here
+(some readers, e.g. Biopython, tolerate `[<>]n`; poly parses `<5` to {Start:-1, End:0} and
+GetSequence panics — recorded as an assumption and kept as a correspondence-only probe).
 
 The reverse complement is `Transform.revComp`, whose agreement with the IUPAC reading is C11.
 Core Lean only.
@@ -153,11 +168,11 @@ def readDigits : Str → Nat → Nat × Str
   | [], acc => (acc, [])
   | c :: cs, acc => if isDig c then readDigits cs (acc * 10 + (c.toNat - 48)) else (acc, c :: cs)
 
-/-- one or more digits -/
+/-- one or more digits, no leading zero (so the value is ≥ 1) -/
 def readNat (s : Str) : Option (Nat × Str) :=
   match s with
   | [] => none
-  | c :: _ => if isDig c then some (readDigits s 0) else none
+  | c :: _ => if isDig c && c != '0' then some (readDigits s 0) else none
 
 /-- `s` starts with `pre`: the rest -/
 def stripPrefix : Str → Str → Option Str
@@ -165,8 +180,9 @@ def stripPrefix : Str → Str → Option Str
   | _ :: _, [] => none
   | p :: ps, c :: cs => if p = c then stripPrefix ps cs else none
 
-/-- a span or a single base:  `[<] nat .. [>] nat`  |  `nat` -/
-def readLeaf (s : Str) : Option (Loc × Str) :=
+/-- a span or a single base:  `[<] nat .. [>] nat`  |  `nat`.
+With `len` (lenient) also `[<] nat .. nat >`, read as `[<] nat .. > nat`. -/
+def readLeaf (len : Bool) (s : Str) : Option (Loc × Str) :=
   let lt := s.head? == some '<'
   let s1 := if lt then s.drop 1 else s
   match readNat s1 with
@@ -179,48 +195,57 @@ def readLeaf (s : Str) : Option (Loc × Str) :=
       let s4 := if gt then s3.drop 1 else s3
       match readNat s4 with
       | none => none
-      | some (b, s5) => if 1 ≤ a ∧ a ≤ b then some (.span a b lt gt, s5) else none
+      | some (b, s5) =>
+        if 1 ≤ a ∧ a ≤ b then
+          if len && !gt && s5.head? == some '>' then some (.span a b lt true, s5.drop 1)
+          else some (.span a b lt gt, s5)
+        else none
 
 mutual
 /-- one location at the head of the input; the unread rest is returned -/
-def readLoc : Nat → Str → Option (Loc × Str)
+def readLoc (len : Bool) : Nat → Str → Option (Loc × Str)
   | 0, _ => none
   | f + 1, s =>
     match stripPrefix txtCompl s with
     | some r =>
-      match readLoc f r with
+      match readLoc len f r with
       | some (x, ')' :: r') => some (.compl x, r')
       | _ => none
     | none =>
       match stripPrefix txtJoin s with
       | some r =>
-        match readLoc f r with
+        match readLoc len f r with
         | some (x, r1) =>
-          match readTail f r1 with
+          match readTail len f r1 with
           | some (y :: ys, ')' :: r2) => some (.join (x :: y :: ys), r2)
           | _ => none
         | none => none
-      | none => readLeaf s
+      | none => readLeaf len s
 /-- zero or more `, location` -/
-def readTail : Nat → Str → Option (List Loc × Str)
+def readTail (len : Bool) : Nat → Str → Option (List Loc × Str)
   | 0, _ => none
   | f + 1, s =>
     match s with
     | ',' :: r =>
-      match readLoc f r with
+      match readLoc len f r with
       | some (x, r1) =>
-        match readTail f r1 with
+        match readTail len f r1 with
         | some (xs, r2) => some (x :: xs, r2)
         | none => none
       | none => none
     | _ => some ([], s)
 end
 
-/-- the whole text is exactly one INSDC location -/
-def insdcParse (s : Str) : Option Loc :=
-  match readLoc (s.length + 1) s with
+def parseWith (len : Bool) (s : Str) : Option Loc :=
+  match readLoc len (s.length + 1) s with
   | some (l, []) => some l
   | _ => none
+
+/-- the whole text is exactly one INSDC location -/
+def insdcParse (s : Str) : Option Loc := parseWith false s
+
+/-- … or one INSDC location in which 3′ markers may also stand after the end position -/
+def insdcLenient (s : Str) : Option Loc := parseWith true s
 
 /-! ### the location as a poly.Location structure -/
 
@@ -235,6 +260,45 @@ def embed : Loc → PLoc
 def embedList : List Loc → List PLoc
   | [] => []
   | x :: xs => embed x :: embedList xs
+end
+
+mutual
+/-- variants of `embed`: `joinFlag` = the `Join` flag of join nodes (when false, a join is only a
+node with several sublocations, as in poly_test.go); `wrap` = every complement is a wrapper node
+instead of a flag merged into the operand's node -/
+def embedV (joinFlag wrap : Bool) : Loc → PLoc
+  | .span a b lt gt => { start := (a : Int) - 1, stop := b, five := lt, three := gt }
+  | .base n => { start := (n : Int) - 1, stop := n }
+  | .join xs => { join := joinFlag, subs := embedVList joinFlag wrap xs }
+  | .compl x =>
+    let p := embedV joinFlag wrap x
+    if wrap || p.complement then { complement := true, subs := [p] } else { p with complement := true }
+def embedVList (joinFlag wrap : Bool) : List Loc → List PLoc
+  | [] => []
+  | x :: xs => embedV joinFlag wrap x :: embedVList joinFlag wrap xs
+end
+
+mutual
+/-- `Rep p l`: the structure `p` is the location `l` assembled as a poly.Location.  Fields that
+the library does not read on a node of that kind (coordinates and partial flags of inner nodes)
+are free. -/
+inductive Rep : PLoc → Loc → Prop
+  | span (a b : Nat) (lt gt : Bool) :
+      Rep ⟨(a : Int) - 1, b, false, false, lt, gt, []⟩ (.span a b lt gt)
+  | base (n : Nat) :
+      Rep ⟨(n : Int) - 1, n, false, false, false, false, []⟩ (.base n)
+  | join (s e : Int) (j f t : Bool) (ps : List PLoc) (xs : List Loc) :
+      (j = true ∨ 2 ≤ ps.length) → RepList ps xs → Rep ⟨s, e, false, j, f, t, ps⟩ (.join xs)
+  | merged (s e : Int) (j f t : Bool) (ps : List PLoc) (x : Loc) :
+      Rep ⟨s, e, false, j, f, t, ps⟩ x → Rep ⟨s, e, true, j, f, t, ps⟩ (.compl x)
+  | wrapper (s e : Int) (f t : Bool) (q : PLoc) (x : Loc) :
+      Rep q x → Rep ⟨s, e, true, false, f, t, [q]⟩ (.compl x)
+  | pass (s e : Int) (f t : Bool) (q : PLoc) (l : Loc) :
+      Rep q l → Rep ⟨s, e, false, false, f, t, [q]⟩ l
+inductive RepList : List PLoc → List Loc → Prop
+  | nil : RepList [] []
+  | cons (p : PLoc) (ps : List PLoc) (x : Loc) (xs : List Loc) :
+      Rep p x → RepList ps xs → RepList (p :: ps) (x :: xs)
 end
 
 mutual
